@@ -57,6 +57,27 @@ func runC14(c *Ctx) []Violation {
 		}
 		worlds = append(worlds, w)
 	}
+	if c.T.Chance("c14.near-copy-world", 1, 4) {
+		// one more world: a near-copy of the first one's schema (one flag flipped, one string in another
+		// letter case or with a blank added, ...) over the same input - two transforms whose schemas a
+		// process-wide cache with a lossy key cannot tell apart, running interleaved
+		for try := 0; try < 3; try++ {
+			ns, d := simio.SiblingJSON(c.T, worlds[0].Schema)
+			if d == "" {
+				continue
+			}
+			if s, es, ps := run.NewSchema("sim-schema", ns, ext); s == nil || es != "" || ps != "" {
+				continue
+			}
+			nw := worlds[0].Clone()
+			nw.Schema = ns
+			nw.Name = worlds[0].Name + " with " + d
+			worlds = append(worlds, nw)
+			nWorlds++
+			c.Count("worlds.near-copy-of-another-task's-schema", 1)
+			break
+		}
+	}
 	shared := map[int]omniparser.Schema{}
 	tasks := make([]*c14task, k)
 	for i := range tasks {
